@@ -717,13 +717,13 @@ func RandRule(r *rand.Rand, o GenOpts, ord int) Rule {
 				sc = MakeScalar(r, oo, []string{v}, false)
 			} else {
 				lines := []string{v}
-				if o.MultiLine && key == "annotations" && r.Intn(4) == 0 {
+				if o.MultiLine && ((key == "annotations" && r.Intn(4) == 0) || (key == "labels" && r.Intn(6) == 0)) {
 					lines = []string{v, pick(r, vals)}
 					for i := range lines {
 						lines[i] = strings.TrimSpace(lines[i])
 					}
 				}
-				sc = MakeScalar(r, o, lines, key == "annotations")
+				sc = MakeScalar(r, o, lines, key == "annotations" || len(lines) > 1)
 			}
 			kv := KV{Key: keys[perm[i]], Val: sc}
 			if !flow && o.Comments && r.Intn(8) == 0 && len(sc.Lines) == 1 && (sc.Style == Plain || sc.Style == Single || sc.Style == Double) {
